@@ -1329,12 +1329,19 @@ class InputW(Obj):
         self.k, self.what = k, what
 
     def m_indexed_child_at(self, I, a, n):
+        idx = I.ctx.rv(a[0])
+        if z3.is_expr(idx) and z3.eq(idx, z3.Int("keys_input_index")) and hasattr(self.k, "keys_valid"):
+            return InputW(self.k, "keys_input")
         return InputW(self.k, "child_input")
 
     def m_modified(self, I, a, n):
+        if self.what == "keys_input":
+            return self.k.keys_modified
         return I.ctx.fresh("input_modified", "bool")
 
     def m_valid(self, I, a, n):
+        if self.what == "keys_input":
+            return self.k.keys_valid
         return I.ctx.fresh("input_valid", "bool")
 
     def m_data_view(self, I, a, n):
@@ -1383,6 +1390,9 @@ class SetW(Obj):
         return I.ctx.fresh("next_added_slot")
 
     def m_find_slot(self, I, a, n):
+        key = I.ctx.rv(a[0])
+        if isinstance(key, KeyOf) and hasattr(self.k, "chg_slot"):
+            return self.k.chg_slot[key.slot]          # the slot (or npos) of the j-th membership-changed key
         return I.ctx.fresh("found_slot")
 
 
@@ -1468,6 +1478,8 @@ class PrepareMapEvaluationSlots(SlotKernel):
         ctx.store[(st.oid, "child_schedule_queue")] = self.heap
         nmux, nargs, nchg = z3.Int("n_multiplexed"), z3.Int("n_args"), z3.Int("n_membership_changed")
         self.nmux, self.nargs, self.nchg = nmux, nargs, nchg
+        self.keys_valid, self.keys_modified = z3.Bool("keys_input_valid"), z3.Bool("keys_input_modified")
+        self.chg_slot = z3.Array("slot_of_membership_changed_key", I_, I_)
         nouter = z3.Int("n_outer_sources")
         mux_data = z3.Array("multiplexed_inputs_data", I_, I_)
         ctx.assume(z3.And(nmux >= 0, nargs >= 0, nchg >= 0))
@@ -1547,6 +1559,18 @@ class PrepareMapEvaluationSlots(SlotKernel):
                                        self.gg(ctx, "h_popped") == -1)
         yield "not-collected-yet", z3.And(z3.Not(self.gg(ctx, "collected")), self.gg(ctx, "materialized") == 0)
 
+    def changed_keys_are_candidates(self, ctx, upto):
+        """the child of every membership-changed key below `upto` that has one is an evaluation candidate"""
+        cand = self.gg(ctx, "cand")
+        s = self.chg_slot[qk]
+        return z3.ForAll([qk], z3.Implies(z3.And(qk >= 0, qk < upto, s != NPOS, z3.Not(self.entry_null[s])), cand[s]))
+
+    def inv_changed(self, I, ctx):
+        out = self.inv_range(self.nchg)(I, ctx)
+        out.append(("membership-changed-keys-visited-so-far-are-candidates[C10 a key that joined or left one of the keyed inputs is "
+                    "re-bound and evaluated in that cycle]", self.changed_keys_are_candidates(ctx, self.range_pos(I))))
+        return out
+
     def inv_simple(self, I, ctx):
         out = list(self.common(ctx))
         out.append(("a-full-scan-once-requested-stays-requested", z3.Implies(z3.Or(self.refresh0, z3.Not(self.was_primed)),
@@ -1583,6 +1607,9 @@ class PrepareMapEvaluationSlots(SlotKernel):
                                                                         self.local(I, "full_scan"))
         yield "nothing-popped", self.gg(ctx, "h_popped") == -1
         yield "not-collected-yet", z3.And(z3.Not(self.gg(ctx, "collected")), self.gg(ctx, "materialized") == 0)
+        yield ("membership-changed-keys-are-candidates-whether-or-not-the-key-set-itself-ticked[C10 a key that joined or left one of "
+               "the keyed inputs is re-bound and evaluated in that cycle]"), z3.Implies(
+                   self.keys_valid, self.changed_keys_are_candidates(ctx, self.nchg))
 
     def frame_simple(self, I, ctx):
         return [Loc((self.g.oid, "cand")), Loc((self.st.oid, "refresh_all_bindings"))]
@@ -1601,10 +1628,11 @@ class PrepareMapEvaluationSlots(SlotKernel):
 
     @property
     def loops(self):
-        simple = LoopSpec(self.inv_simple, self.frame_simple)
-        rng = lambda n: LoopSpec(self.inv_range(n), self.frame_simple)
-        return {0: rng(self.nargs), 1: simple, 2: rng(self.nmux), 3: simple, 4: rng(self.nchg),
-                5: LoopSpec(self.inv_drain, self.frame_drain)}
+        simple = lambda m: LoopSpec(self.inv_simple, self.frame_simple, match=m)
+        rng = lambda n, m: LoopSpec(self.inv_range(n), self.frame_simple, match=m)
+        return {0: rng(self.nargs, "access.args"), 1: simple("next_added_slot"), 2: rng(self.nmux, "multiplexed_inputs"),
+                3: simple("next_modified_slot"), 4: LoopSpec(self.inv_changed, self.frame_simple, match="membership_changed_keys"),
+                5: LoopSpec(self.inv_drain, self.frame_drain, match="child_schedule_queue")}
 
     def post(self, I, ret):
         ctx = I.ctx
@@ -1613,6 +1641,9 @@ class PrepareMapEvaluationSlots(SlotKernel):
         ctx.oblige("ensures.no-due-entry-left-in-the-heap;every-due-non-stale-entry's-slot-is-a-candidate[C10 a child due by its own "
                    "schedule is not starved]", z3.And(z3.ForAll([qe], z3.Implies(pres[qe], when[qe] > self.T)), self.popped_ok(ctx)),
                    kind="post-normal")
+        ctx.oblige("ensures.membership-changed-keys-are-candidates-whether-or-not-the-key-set-itself-ticked[C10 a key that joined or "
+                   "left one of the keyed inputs is re-bound and evaluated in that cycle]",
+                   z3.Implies(self.keys_valid, self.changed_keys_are_candidates(ctx, self.nchg)), kind="post-normal")
         ctx.oblige("ensures.materialized-once,cursor-reset", z3.And(self.gg(ctx, "materialized") == 1,
                    ctx.store[(self.st.oid, "resume_position_plus_one")] == 0), kind="post-normal")
         ctx.oblige("ensures.first-evaluation-or-refresh=>every-child-is-a-candidate[C10]",
